@@ -476,6 +476,9 @@ ValidatedStages(o) ==
   \cup (IF \E e \in Range(ev) : e.call = "create_render_pipeline" THEN {"VERTEX"} ELSE {})
   \cup (IF \E e \in Range(ev) : e.call = "create_render_pipeline" /\ Has(e, "fragment") /\ e.fragment # "null" THEN {"FRAGMENT"} ELSE {})
 C02(c, o) ==
+  (* raw sources (resource kinds the abstract shader cannot express): whatever module comes back must survive real wgpu *)
+  IF ~HasS(c) /\ ValidAll(o) /\ Projected(o) /\ Compiled(o) THEN
+    [ dom |-> RtOf(o, "wgpu") # << >>, fails |-> { "wgpu rejects " \o e.call \o ": " \o e.err : e \in RealErrors(o) } ] ELSE
   IF ~(HasS(c) /\ ValidAll(o) /\ Projected(o) /\ Compiled(o)) THEN NoVerdict ELSE
   LET S == c.S
       ruleOf == [ i \in DOMAIN Resources(S) |-> RuleErrors(S, o, Resources(S)[i]) ]
